@@ -597,3 +597,251 @@ def c19(run):
                 "field, and that Rust's == holds. Non-trivial = distinct scenario whose tree has a oneway method, a resolved "
                 "type, a direction, an annotation or documentation.")
     return judge(run, nt_roundtrip, chunk_events=1200)
+
+
+# --------------------------------------------------------------------------------------
+# documents as pieces: C02 / C03 / C04 / C18 / C20
+# --------------------------------------------------------------------------------------
+import docgen as D
+
+
+def piece_scenario(docs, src, validate=True):
+    """docs: list of (id, pieces). The Add event carries the pieces (argument) and the parse-stage result."""
+    ops = [{"op": "new", "i": 1}]
+    for id_, pcs in docs:
+        ops.append({"op": "add", "i": 1, "id": id_, "text": D.text_of(pcs), "pieces": pcs, "parsed": True})
+    if validate:
+        ops.append({"op": "validate", "i": 1})
+    return {"sid": "", "src": src, "ops": ops}
+
+
+def mutate_tokens(toks, rng, n):
+    toks = list(toks)
+    pool = [D.T(x) for x in (";", ",", "{", "}", "(", ")", "[", "]", "<", ">", "=", ".", "-", "package", "import", "interface",
+                             "parcelable", "enum", "oneway", "const", "in", "out", "inout", "void", "int", "String",
+                             "CharSequence", "List", "Map", "true", "1", "\"s\"")]
+    pool += [D.T("x", "IDENT"), D.T("Foo", "IDENT"), D.T("@A", "ANNOTATION"), D.T("1.5f", "FLOAT"), D.T("class", "RESERVED_KEYWORD"),
+             D.T("for", "RESERVED_KEYWORD"), D.T("99999999999", "INTEGER"), D.T("new", "RESERVED_KEYWORD")]
+    for _ in range(n):
+        x = rng.random()
+        if not toks:
+            toks.append(rng.choice(pool))
+            continue
+        pos = rng.randrange(len(toks))
+        if x < 0.3:
+            toks.insert(pos, rng.choice(pool))
+        elif x < 0.6:
+            del toks[pos]
+        elif x < 0.85:
+            toks[pos] = rng.choice(pool)
+        elif len(toks) > 1:
+            q = rng.randrange(len(toks))
+            toks[pos], toks[q] = toks[q], toks[pos]
+    return toks
+
+
+def nt_has_tree_nodes(sc, evs):
+    return any(e["ev"] == "add" and e.get("pobs", {}).get("has_tree") and len(e["pobs"]["nodes"]) >= 6 for e in evs)
+
+
+def family_token_docs(run, fams):
+    out = []
+    for fam in fams:
+        for s in run.add_model("MC_Validate", env={"FAMILY": fam, "TIER": run.tier}):
+            for f in s["files"]:
+                if f["id"] == s.get("main", "a"):
+                    out.append((fam, f["toks"]))
+    return out
+
+
+@plan("C02")
+def c02(run):
+    q = run.tier == "quick"
+    scs = []
+    fam_docs = family_token_docs(run, ["sym", "dir"] if q else ["sym", "dir", "cont", "ow", "meth"])
+    for fam, toks in fam_docs:
+        for mode in (("mixed", "tight") if q else ("mixed", "tight", "spaces", "mixed")):
+            scs.append(piece_scenario([("a", D.layout(toks, run.rng, mode=mode, wild_comments=True))], f"mc-{fam}-{mode}", validate=False))
+    g = D.RichGen(run.rng)
+    for _ in range(400 if q else 6000):
+        toks = g.document()
+        for mode in ("mixed", "tight", "mixed"):
+            scs.append(piece_scenario([("a", D.layout(toks, run.rng, mode=mode, wild_comments=True, docs=0.1))], f"rich-{mode}", validate=False))
+    run.add(scs)
+    run.rule = ("Token sequences from the TLC-enumerated families (sym, dir; + cont, ow, meth in the thorough tier) and from a "
+                "seeded generator of rich well-formed documents (all member / type / value / annotation forms, near-keyword "
+                "identifiers, trailing commas, qualified names, nesting to depth 4), each rendered under several layouts (no "
+                "separator wherever the lexer needs none, spaces, tabs, LF / CRLF, Unicode white space, line and block comments "
+                "with arbitrary text incl. comment openers and quotes, doc comments). The Add event carries the pieces; the trace "
+                "spec parses the NON-TRIVIA pieces with AidlParse.ParseToks and requires the parse-stage tree to mirror it node by "
+                "node (layout cannot matter by construction). Non-trivial = distinct document whose tree has at least 6 nodes.")
+    return judge(run, nt_has_tree_nodes, chunk_events=800)
+
+
+def slot_scenarios(run, depth, slot="all", layouts=("spaces",)):
+    out, st, printed = C.run_model("MC_Slots", workers=8, timeout=3000, wdir=run.wdir, env_extra={"DEPTH": str(depth), "SLOT": slot})
+    run.model_states += st.get("distinct", 0)
+    run.model_transitions += st.get("generated", 0)
+    run.models.append({"module": "MC_Slots", "env": {"DEPTH": depth, "SLOT": slot}, "distinct": st.get("distinct", 0)})
+    frames = lex = None
+    scs = []
+    for s in printed:
+        if s.startswith("FRAMES "):
+            frames = json.loads(s[7:])
+        elif s.startswith("LEX "):
+            lex = json.loads(s[4:])
+    nwell = 0
+    for s in printed:
+        if not s.startswith("SCEN "):
+            continue
+        x = json.loads(s[5:])
+        fr = frames[x["slot"]]
+        toks = fr["pre"] + [lex[v] for v in x["fill"]] + fr["suf"]
+        nwell += 1 if x["v"]["ok"] else 0
+        for mode in layouts:
+            scs.append(piece_scenario([("a", D.layout(toks, run.rng, mode=mode))], f"mc-slot-{x['slot']}", validate=False))
+    return scs, nwell
+
+
+def nt_syntax_error(sc, evs):
+    return any(e["ev"] == "add" and any(d["tag"] == "syntax" for d in e.get("pobs", {}).get("diags", [])) for e in evs)
+
+
+def mutated_docs(run, n, src="rich-mutated", validate=False):
+    g = D.RichGen(run.rng, maxdepth=2)
+    scs = []
+    for _ in range(n):
+        toks = mutate_tokens(g.document(), run.rng, run.rng.randint(1, 4))
+        scs.append(piece_scenario([("a", D.layout(toks, run.rng, mode=run.rng.choice(["mixed", "spaces", "tight"]), wild_comments=True))],
+                                  src, validate=validate))
+    return scs
+
+
+@plan("C03")
+def c03(run):
+    q = run.tier == "quick"
+    scs, nwell = slot_scenarios(run, 2 if q else 3)
+    run.add(scs)
+    run.add(mutated_docs(run, 1500 if q else 30000, validate=True))
+    g = D.RichGen(run.rng)
+    for _ in range(300 if q else 3000):
+        run.add([piece_scenario([("a", D.layout(g.document(), run.rng, mode="mixed"))], "rich", validate=True)])
+    run.rule = ("TLC enumerates MC_Slots: every token string up to length 2 (quick) / 3 (thorough) over the 34 terminals + an "
+                "INTEGER that does not fit 32 bits, substituted into each of 16 syntactic slots of a well-formed frame (package "
+                "name, import path, forward declaration, item header, interface / parcelable / enum member, argument list, "
+                "argument, generic parameters, after a type, transact code, const and field value, annotation parameters, after "
+                "the item), decided by the specification's own tree builder; plus 1-4 random token insertions / deletions / "
+                "replacements / swaps applied to rich generated documents, and well-formed documents. The trace spec re-derives "
+                "the verdict from the pieces (AidlParse.ParseToks + the 32-bit rule) and demands: no syntax diagnostic and a tree "
+                "iff well-formed; at least one Error otherwise; parse-stage diagnostics survive validation; no stored identifier "
+                "is a keyword or reserved word. Non-trivial = distinct scenario with at least one syntax diagnostic.")
+    run.exhaustive = False
+    return judge(run, nt_syntax_error, chunk_events=3000, extra_cov={"slot_fillings_wellformed_per_spec": nwell})
+
+
+def nt_multibyte_layout(sc, evs):
+    for op in sc["ops"]:
+        if op["op"] == "add" and any(ord(c) > 127 for c in op.get("text", "")) and "\n" in op["text"]:
+            return True
+    return False
+
+
+@plan("C04")
+def c04(run):
+    q = run.tier == "quick"
+    scs = []
+    g = D.RichGen(run.rng)
+    for _ in range(500 if q else 8000):
+        toks = g.document()
+        for mode in ("mixed", "mixed", "tight"):
+            scs.append(piece_scenario([("a", D.layout(toks, run.rng, mode=mode, wild_comments=True, docs=0.15))], f"rich-{mode}", validate=True))
+    for fam, toks in family_token_docs(run, ["sym"] if q else ["sym", "dir", "cont"]):
+        scs.append(piece_scenario([("a", D.layout(toks, run.rng, mode="mixed", wild_comments=True))], f"mc-{fam}", validate=True))
+    run.add(scs)
+    run.add(mutated_docs(run, 1200 if q else 20000, validate=True))
+    s2, _ = slot_scenarios(run, 1 if q else 2, layouts=("mixed",))
+    run.add(s2)
+    run.rule = ("Rich generated documents and TLC-enumerated family documents under layouts that put multi-byte text, CRLF, "
+                "lone CR, NBSP / U+3000 / U+2028 / NEL, combining marks and comments before / inside / after every construct; the "
+                "trace spec computes every position from the pieces (AidlLayout: UTF-8 offsets, 1-based line, column in grapheme "
+                "clusters) and demands for every node the exact name range, a full range within the allowed start / end sets, "
+                "containment and sibling order, and well-formedness of EVERY range in trees, diagnostics and related infos; on "
+                "malformed inputs (token mutations, MC_Slots strings) every syntax diagnostic must cover exactly one token or the "
+                "end of input and the earliest one the first offending token; validation diagnostics must sit on a node range. "
+                "Non-trivial = distinct multi-line document containing multi-byte characters.")
+    return judge(run, nt_multibyte_layout, chunk_events=1000)
+
+
+def nt_has_doc(sc, evs):
+    return any(e["ev"] == "add" and any(n["doc"] for n in e.get("pobs", {}).get("nodes", [])) for e in evs)
+
+
+@plan("C18")
+def c18(run):
+    q = run.tier == "quick"
+    scs = []
+    g = D.RichGen(run.rng, maxdepth=2)
+    for _ in range(900 if q else 15000):
+        toks = g.document()
+        nl = run.rng.choice(["\n", "\r\n"])
+        scs.append(piece_scenario([("a", D.layout(toks, run.rng, mode=run.rng.choice(["spaces", "mixed"]), docs=0.6,
+                                                  unicode_ws=False, wild_comments=False, nl=nl))], "rich-docs", validate=False))
+    run.add(scs)
+    run.rule = ("Rich generated documents in which doc comments (/** ... */ with a structured body: 0-2 paragraphs x 1-2 lines x "
+                "1-4 words, 0-2 @tag clauses; one-line, starred multi-line and compact decoration; LF or CRLF; ASCII, accented, CJK, "
+                "kana, emoji and combining-mark words) are placed in front of items, members, enum elements and arguments and at "
+                "arbitrary other gaps, optionally followed by ordinary block / line comments, with two doc comments in a row and "
+                "doc comments belonging to the previous member arising from the random placement; AidlLayout.DocFor decides which "
+                "piece documents which construct and DocText normalises the body; the trace spec compares the doc field of EVERY "
+                "documentable node (also the ones that must have none). Non-trivial = distinct document in which some node carries "
+                "documentation.")
+    return judge(run, nt_has_doc, chunk_events=1500)
+
+
+def nt_expected3(sc, evs):
+    return any(e["ev"] == "add" and any(len(v) >= 3 for v in e.get("expected", [])) for e in evs)
+
+
+@plan("C20")
+def c20(run):
+    q = run.tier == "quick"
+    scs, _ = slot_scenarios(run, 2 if q else 3)
+    run.add(scs)
+    run.add(mutated_docs(run, 1500 if q else 30000))
+    run.rule = ("Error points: every MC_Slots token string (see C03) - the specification's tree builder decides which tokens are "
+                "unacceptable, so error points in every slot are reached - plus recovered errors inside token-mutated rich "
+                "documents. For every syntax diagnostic the harness logs the expectation vector the generated parser handed to the "
+                "formatter (hook) and the words of the message (maximal [A-Z_]+ runs and quoted strings, token text removed); the "
+                "trace spec requires the set of terminal names in the message to equal the set in the vector. Non-trivial = "
+                "distinct scenario with an expectation vector of at least 3 entries.")
+    return judge(run, nt_expected3, chunk_events=3000)
+
+
+VOCAB = {'"("', '")"', '","', '"-"', '"."', '";"', '"<"', '"="', '">"', '"["', '"]"', '"{"', '"}"',
+         "ANNOTATION", "BOOLEAN", "CHAR_SEQUENCE", "CONST", "DIRECTION", "ENUM", "FLOAT", "IDENT", "IMPORT", "INTEGER",
+         "INTERFACE", "LIST", "MAP", "ONEWAY", "PACKAGE", "PARCELABLE", "PRIMITIVE", "QUOTED_STRING",
+         "RESERVED_KEYWORD", "STRING", "VOID"}
+
+
+@matcher("c20_drop_penultimate")
+def m_c20(kf, fail, sc, evs):
+    """Known finding: for an expectation vector of n >= 3 entries the message names all but the entry at index n-2;
+    nothing else may differ (nothing extra, nothing else missing, vectors and syntax diagnostics pair up 1:1)."""
+    ev = next((e for e in evs if e.get("n") == fail["n"] and e["ev"] == "add"), None)
+    if not ev or "pobs" not in ev:
+        return False
+    syn = [d for d in ev["pobs"]["diags"] if d["tag"] == "syntax"]
+    exp = ev.get("expected", [])
+    if len(syn) != len(exp):
+        return False
+    seen_defect = False
+    for d, v in zip(syn, exp):
+        named = {w for w in d["words"] + d["quoted"] if w in VOCAB}
+        if named == set(v):
+            continue
+        n = len(v)
+        if n >= 3 and named == set(v[:n - 2] + v[n - 1:]):
+            seen_defect = True
+            continue
+        return False
+    return seen_defect
